@@ -212,6 +212,9 @@ func (c *Ctx) Violation(input []byte, format string, args ...interface{}) {
 	if len(c.Res.Violations) >= 25 {
 		return
 	}
+	if c.curFamily == "parent" {
+		c.curIdx = uint64(len(c.Res.Violations))
+	}
 	path := c.writeReplay(msg, input)
 	c.Res.Violations = append(c.Res.Violations, Violation{Msg: msg, Replay: path})
 	if c.replaying {
